@@ -362,6 +362,9 @@ func (c *compiler) evalElseAndElseIfExpressions(node *ast.IfExpression) (interfa
 		eiCon, err := c.evalExpression(eiNode.Condition)
 		if err != nil {
 			if !tolerableUnknown(eiNode.Condition, err) {
+				// the failing condition stands on the line of its own else if, which may
+				// be a later one than the line of the if that starts the chain
+				c.curStmt = &ast.ExpressionStatement{TokenAble: eiNode.TokenAble, Expression: eiNode.Condition}
 				return nil, err
 			}
 		}
